@@ -280,8 +280,11 @@ class EngineBase:
         for i, v in enumerate(vals):
             items = z3.Store(items, i, v.t)
         a = s.new_tuple(items, z3.IntVal(len(vals)))
+        from .comps import tmem
+        for v in vals:
+            s.assume(tmem(items, z3.IntVal(len(vals)), v.t))
         ety = vals[0].ty if vals and all(v.ty == vals[0].ty for v in vals) else ANY
-        return SV(vref(a), TUP(ety))
+        return SV(vref(a), TUP(ety), (items, z3.IntVal(len(vals))))
 
     def ev_List(self, e, st):
         out = []
